@@ -7,6 +7,7 @@ are appended to an accumulator `exc` as Outcome('raise', state, exception name).
 """
 
 import ast
+import inspect
 
 import z3
 
@@ -1292,7 +1293,12 @@ class Engine:
             r = con.pure(o, *argviews)
             return [(s, to_val(con.result, r))]
         for ename, cond in con.raises.items():
-            c = cond(o)
+            if len(inspect.signature(cond).parameters) >= 2:
+                # the condition speaks about the callee's locals at the raise: a caller only learns that the
+                # exception is possible
+                c = True
+            else:
+                c = cond(o)
             if isinstance(c, bool):
                 c = z3.BoolVal(c)
             if not z3.is_false(c) and self.feasible(s, c):
@@ -1983,6 +1989,33 @@ class Engine:
                     else:
                         raise OutOfSubset(f"sum of lengths over {lst.ty}")
                 return out
+        if e.func.id in ("all", "any") and len(g.generators) == 1 and not g.generators[0].ifs and len(e.args) == 1 and isinstance(g.generators[0].target, ast.Name):
+            # all(test(x) for x in xs) over a list: the test is evaluated once on the element at a bound position k
+            # and closed under a quantifier.  Only a test that neither forks, raises nor learns anything is taken.
+            gen = g.generators[0]
+            out = []
+            for s, lst in self.ev(gen.iter, st, exc):
+                if not isinstance(lst.ty, TList):
+                    raise OutOfSubset(f"{e.func.id}() over {lst.ty} at L{e.lineno}")
+                lv = ListView(s, lst.z, lst.ty.elem)
+                # k is a position of the underlying array (not an offset into the window): a slice of a list then
+                # speaks about the same terms as the list it was cut from
+                k = smt.fresh("k!" + e.func.id, smt.Int)
+                s2 = s.clone()
+                s2.assign(gen.target.id, unpack(lst.ty.elem, lv.arr[k]))
+                exc2 = []
+                n_obl = len(self.obligations)
+                rs = self.ev(g.elt, s2, exc2)
+                if len(rs) != 1 or exc2 or len(self.obligations) != n_obl or len(rs[0][0].pc) != len(s.pc):
+                    raise OutOfSubset(f"element test of {e.func.id}() is not a plain predicate at L{e.lineno}")
+                b = self.truth(rs[0][0], rs[0][1])
+                rng = z3.And(lv.lo <= k, k < lv.hi)
+                if e.func.id == "all":
+                    q = z3.ForAll([k], z3.Implies(rng, b), patterns=[lv.arr[k]])
+                else:
+                    q = z3.Exists([k], z3.And(rng, b), patterns=[lv.arr[k]])
+                out.append((s, mk_bool(q)))
+            return out
         raise OutOfSubset(f"generator expression in {e.func.id} at L{e.lineno}")
 
     def genexp_method(self, e, st, exc):
